@@ -28,7 +28,8 @@ def vec(x):
 def gen_fn1(rng):
     """(kind, expr over x0, box or None): smooth, kinked, flat, steps, bumpy, unbounded below, +inf regions, NaN regions"""
     X = ("x", 0)
-    c = rng.choice([0.0, 1.0, 0.5, 2.618034, dyadic(rng, -6, 6, 4), gfloat(rng, 5.0), rng.uniform(-30, 30), rng.uniform(-1, 2)])
+    c = rng.choice([0.0, 1.0, 0.5, 2.618034, dyadic(rng, -6, 6, 4), gfloat(rng, 5.0), rng.uniform(-30, 30), rng.uniform(-1, 2),
+                    rng.choice([1e6, -3e7, 2.5e9, 1e15])])       # far away: with tol = 0 the step tol1 = 1e-11 is below one ulp of x (u == x)
     k = rng.choice([1.0, 1.0, 2.0, 0.5, 0.25, 100.0, 1e-6, rng.uniform(0.1, 10)])
     d = rng.choice([0.0, 0.0, dyadic(rng, -4, 4, 2), gfloat(rng, 5.0)])
     sh = ("-", X, ("c", c))
@@ -333,6 +334,36 @@ def brent_monitor(tag, c, real, hist, default_bracket):
     with the default bracket the returned value is <= the value at alpha = 0 (and at alpha = 1)"""
     out = []
     hadd(hist, "%s:exc:%s" % (tag, real["exc"]))
+    brack = c.get("brack")
+    if brack is not None and real["exc"] not in ("dsl",) and not real["exc"].startswith("other:"):
+        # brent's checks of a user-supplied bracket, as documented: (a, b, c) with a < b < c after ordering the ends and
+        # func(b) < func(a), func(c); any other length than 2 or 3 is a ValueError
+        if len(brack) not in (2, 3):
+            want = "badBrack"
+        elif len(brack) == 3:
+            xa, xb, xc = brack
+            if xa > xc:
+                xa, xc = xc, xa
+            if not (xa < xb and xb < xc):
+                want = "notBracketX"
+            else:
+                try:
+                    fa, fb, fc = (boxed_eval(c["expr"], c["box"], [v]) for v in (xa, xb, xc))
+                    want = None if (fb < fa and fb < fc) else "notBracketF"
+                except ZeroDivisionError:
+                    want = "?"
+        else:
+            want = None
+        if want != "?":
+            if want is not None and real["exc"] != want:
+                out.append(("%s/bracket-check" % tag, "brack=%r must be rejected (%s), brent -> %s" % (brack, want, real["exc"])))
+            elif want is None and real["exc"] in ("notBracketX", "notBracketF", "badBrack"):
+                out.append(("%s/bracket-check" % tag, "brack=%r is a valid bracket, brent raised %s" % (brack, real["exc"])))
+            elif want is None and len(brack) == 3 and real["exc"] == "none":
+                lg = real["log"][:3]
+                if not (len(lg) == 3 and same_vec([a for a, _ in lg], [xa, xb, xc])):
+                    out.append(("%s/bracket-check" % tag, "brack=%r: the first evaluations are at %r, expected the ordered triple %r"
+                                % (brack, [a for a, _ in lg], [xa, xb, xc])))
     if real["exc"] != "none":
         return out
     log = real["log"]
@@ -433,8 +464,10 @@ def run_lsp(c):
         return r
     mod.brent = spy2
     old = np.geterr()
+    probe = {"divide": "warn", "over": "warn", "under": "warn", "invalid": "warn"}     # a state the routine must hand back
     try:
         if c["which"] == "mystic":
+            np.seterr(**probe)
             fret, xn, xin = SO._linesearch_powell(cost, np.array(c["p"]), np.array(c["xi"]), tol=c["tol"], maxiter=c["maxiter"])
         else:
             np.seterr(all="ignore")
@@ -448,7 +481,7 @@ def run_lsp(c):
         mod.brent = orig
         now = np.geterr()
         np.seterr(**old)
-    res["log"] = log; res["pts"] = pts; res["errstate_restored"] = (now == old) if c["which"] == "mystic" else True
+    res["log"] = log; res["pts"] = pts; res["errstate_restored"] = (now == probe) if c["which"] == "mystic" else True
     return res
 
 
@@ -571,6 +604,8 @@ def scipy_brent_monitor(tag, c, real, hist, func_factory, brack):
         if not same_log(ded, log2):
             return [(key, "evaluations differ (after removing the repeated middle point): %s" % log_diff(ded, log2))]
         return []
+    if (real["exc"] in ("notBracketX", "notBracketF")) != (sp["exc"] == "ValueError"):
+        return [(key, "brack=%r: brent -> %s, scipy.optimize.brent -> %s" % (brack, real["exc"], sp["exc"]))]
     if sp["exc"] in ("BracketError", "RuntimeError", "ValueError") or real["exc"] != "none":
         # one side stopped in the bracketing phase: what it evaluated until then must agree with the other side
         n = min(len(log2), len(real["log"]))
